@@ -45,9 +45,7 @@ def digest (out : String) : List String :=
     let body := if s.startsWith "0x" then (s.drop 2).toString else s
     if !body.isEmpty && body.toList.all (fun c => c.isDigit || ('A' ≤ c && c ≤ 'F')) then some s else none
 
-def handleL4 (req ans : String) : Verdict :=
-  match req.splitOn " | " with
-  | [head, srcE, inE] =>
+def handleL4Core (head srcE inE : String) (expect : Option String) (ans : String) : Verdict :=
     match words head, pctDecode srcE.trimAscii.toString, pctDecode inE.trimAscii.toString with
     | ["cli", flag], some src, some inp =>
       if ans.startsWith "NONDET" then
@@ -81,10 +79,27 @@ def handleL4 (req ans : String) : Verdict :=
       -- order in the output) is a broken tie, not a failing input
       let sameDigest := fieldOf ans "exit" == fieldOf model "exit" && fieldOf ans "trace" == fieldOf model "trace"
         && fieldOf ans "regs" == fieldOf model "regs" && fieldOf ans "mem" == fieldOf model "mem" && digest realOut == digest r.stdout
+      -- an expectation stated by the generator from the property itself (independent of model and grammar)
+      let expectOk := match expect with
+        | none => true
+        | some e => (realOut.splitOn e).length > 1
+      if !expectOk then
+        { model := if ok then ans else model, specOk := false,
+          spec := s!"the output contains `{expect.getD ""}` (stated by the generator from the property)", nontrivial := true } else
       { model := if ok then ans else model, specOk := specOk && (ok || sameDigest),
         spec := if ok then "exit status 0/1, no 'Internal Error' in the output" else "reference run: " ++ model,
         nontrivial := !r.diag && r.trace.length > 1 }
     | _, _, _ => bad
+
+def handleL4 (req ans : String) : Verdict :=
+  match req.splitOn " | " with
+  | [head, srcE, inE] => handleL4Core head srcE inE none ans
+  | [head, srcE, inE, expE] =>
+    if expE.startsWith "expect=" then
+      match pctDecode (expE.drop 7).toString.trimAscii.toString with
+      | some e => handleL4Core head srcE inE (some e) ans
+      | none => bad
+    else bad
   | _ => bad
 
 end Driver
